@@ -204,7 +204,7 @@ func guarded(op []any, f func()) string {
 			return ""
 		case <-time.After(500 * time.Millisecond):
 			// the call waits for the loop: is the loop itself parked somewhere other than its select?
-			if el := time.Since(began); el > 60*time.Second || (el > 3*time.Second && loopStuck()) {
+			if el := time.Since(began); el > 20*time.Second || (el > 3*time.Second && loopStuck()) {
 				return fmt.Sprintf("%v did not return within %v: the wheel's loop is blocked", op, el.Round(time.Second))
 			}
 		}
